@@ -115,3 +115,11 @@ chk("C05", "MKIMG", "exploration",
     "Replaces coverage-guided mutation (sampling) by exhaustive deviation-1/2 families; unstructured garbage beyond single-byte edits is not explored. Custom allocator pools can hide "
     "overflows inside pooled objects from ASan.",
     "bounded exhaustive enumeration of deviations from valid images against a memory-safety/termination oracle", "3/C05")
+
+chk("C06", "MKIMG", "exploration",
+    "Hostile directory listings written verbatim by the independent image writer — all 1-entry listings over 12 names ('.', '..', 'a/b', absolute and ../ paths into the jail, NUL, ...) x 11 "
+    "kinds (file, directory with children, fifo, device, symlinks to the jail/'..'/'.'/'/'), all ordered 2-entry listings incl. duplicates, type mismatches, structured 3-entry listings "
+    "(symlink + same-named directory with children + file through it) in all orders, nested and with pre-existing unpack root — x unpack option subsets x unpack path are unpacked by the "
+    "real rdsquashfs as root inside a jail; a recursive snapshot (type, mode, owner, size, content hash, target, mtime, xattrs) of everything outside the unpack root must not change.",
+    "<=3 entries per hostile listing; symlink/absolute targets point into the jail so that an escape lands where the snapshot looks.",
+    "bounded exhaustive enumeration of hostile directory listings against a filesystem-snapshot oracle", "3/C06")
